@@ -21,6 +21,15 @@ pub fn make_date_time_with_tz(datetime: &DateTimeType, _tz: &str) -> Result<Date
         .with_timezone(&Utc.fix()))
 }
 
+/// Constructs an UTC datetime from a timestamp as it is written in text,
+/// as the timezones are not available in this configuration.
+pub fn make_date_time_from_text(
+    datetime: &DateTimeType,
+    tz: &str,
+) -> Result<DateTimeType, String> {
+    make_date_time_with_tz(datetime, tz)
+}
+
 pub fn utc_now() -> DateTimeType {
     Utc::now().into()
 }
